@@ -104,7 +104,7 @@ def check_case(case):
     labels = spans.labels(desc)
     n = len(labels)
     want_dtype = {None: None, 'int': int, 'float32': np.float32, 'bool': bool}[case.get('dtype')]
-    obj = CO.make_object(kind, desc, strict=case.get('strict', False), dtype=want_dtype)
+    obj = CO.make_object(kind, desc, strict=case.get('strict', False), dtype=want_dtype, strict_rep=case.get('strict_rep', 0))
     res = Result(classes=['object:' + kind])
     if want_dtype is not None and kind != 'container':
         # created with a default dtype: the class's own variables carry it from the start
@@ -234,6 +234,9 @@ def check_case(case):
                         arr[...] = arr.dtype.type(77)
                     except Exception:  # noqa: BLE001
                         pass
+                elif type(arr).__name__ == 'array':
+                    for j in range(len(arr)):
+                        arr[j] = 77
             for nm, was in snap_mid.items():
                 if not same_array(obj.__dict__['_' + nm], was):
                     res.fail(f'operand-still-attached/op={k}/operand={oc}', f'{kind} span {labels!r}: after {op} the series {nm} follows '
@@ -336,7 +339,7 @@ def reduced_ops(n):
         out.append(['setslice', s, None, 1, None, {'list': [1, 2]}])
     out += [['add_variable', ['new', 'W'], {'scalar': 1}, d] for d in ('float', 'int', 'bool', 'str', 'U2')]
     out += [['values', {'scalar': 4}], ['values', {'np': [[1.0] * n] * 4, 'dtype': 'float'}], ['values', {'np': [[1.0] * n] * 2, 'dtype': 'float'}],
-            ['strict', True], ['strict', False], ['add_attribute', 'note', 1], ['add_attribute', 'X', 1], ['add_attribute', 'span', 1],
+            ['strict', True], ['strict', False], ['strict', True, 1], ['strict', True, 2], ['add_attribute', 'note', 1], ['add_attribute', 'X', 1], ['add_attribute', 'span', 1],
             ['setlabel', ['new', 'attributes'], 0, {'scalar': 5}], ['setlabel', ['new', 'strict'], 0, {'scalar': 5}],
             ['replace_values', [[['var', 0], {'scalar': 1}], [['var', 1], {'list': [1]}]]],
             ['replace_values', [[['var', 0], {'nested': [[1, 2]] * n}]]]]
@@ -352,6 +355,8 @@ def gen_singles_and_pairs(pairs):
                 for strict in (False, True):
                     for i, op in enumerate(ops):
                         yield {'kind': kind, 'span': desc, 'strict': strict, 'ops': [op]}
+                        if strict and i % 3 == 0:
+                            yield {'kind': kind, 'span': desc, 'strict': strict, 'ops': [op], 'strict_rep': 1 + (i // 3) % 2}
                         if kind != 'container' and i % 4 == 0:
                             yield {'kind': kind, 'span': desc, 'strict': strict, 'ops': [op], 'dtype': ['int', 'float32', 'bool'][(i // 4) % 3]}
                 if pairs and kind != 'linker':
@@ -370,7 +375,8 @@ def strategy():
         n = len(spans.labels(desc))
         return {'kind': draw(st.sampled_from(['container', 'container', 'model', 'linker'])), 'span': desc,
                 'strict': draw(st.booleans()), 'ops': draw(st.lists(CO.op_strategy(n), min_size=1, max_size=25)),
-                'dtype': draw(st.sampled_from([None, None, None, 'int', 'float32', 'bool']))}
+                'dtype': draw(st.sampled_from([None, None, None, 'int', 'float32', 'bool'])),
+                'strict_rep': draw(st.sampled_from([0, 0, 1, 2]))}
     return cases()
 
 
